@@ -41,6 +41,12 @@ EXPLANATION = (
     "_amalgamate_h5ad is total. The pointer arithmetic of the fill pass "
     "and of the merges is not decided.")
 
+EXPLANATION += (
+    ' Added after the seeded rounds: cursor discipline (R-CURSOR), '
+    'index-space typing (R-SPACE) and exact tiling (R-TILE) of the '
+    'anchored modules.'
+)
+
 RULE_TEXT = (
     "one obligation per step / chunk-extent site, per range relation of "
     "the dispatch loop, per piece-list mutation, per dispatcher x member")
